@@ -21,7 +21,12 @@ SPEC = {
             "variables and FB members; VAR_ACCESS; VAR_CONFIG values; tasks with SINGLE/INTERVAL and FB task "
             "bindings) x history of 12-16 steps over cycle(dt) / direct input write / restart(cold|warm) / "
             "restart+load / fault / access write / save / power cycle (new runtime + store [+ start-up restart] + "
-            "load); after every cold restart a freshly built twin receives the same continuation.  Cases 0-9 are "
+            "load); untyped-literal increments (`h := h + 1`: SINT/INT variables hold a DINT afterwards, saved and "
+            "loaded as such); program-variable initialisers that are EXPRESSIONS over globals, earlier variables and "
+            "typed literals; one case in five ends with a tail through the REAL resource thread (scheduler.rs "
+            "ResourceRunner::spawn, paused): 1-5 restart requests reach its restart signal before it starts, while "
+            "it is idle, or while it is inside the retain load of the previous request's restart (the store parks "
+            "on a channel; deterministic); after every cold restart a freshly built twin receives the same continuation.  Cases 0-9 are "
             "the recorded witnesses of the known findings (1, 2, 7, 8, 9: regression cases).  non-trivial = a restart or power cycle happened after "
             "at least one executed cycle; distinct = by hash of the case's description + operation lines",
     "trusted_base": [
@@ -37,7 +42,12 @@ SPEC = {
         "of the derived PartialEq are C10's c10_manager_* theorems)",
     ],
     "assumptions": [
-        "initialisers are constant expressions (the model stores the evaluated initial value)",
+        "initialisers are constants or integer expressions (+, *) over INT/DINT/LINT globals without a direct address, "
+        "EARLIER variables of the same program and typed literals, with values inside the declared type's range",
+        "untyped-literal arithmetic is `x := x + <literal>` only (result tag: DINT for SINT/INT operands, the "
+        "operand's own type otherwise), never on SINT/INT variables bound to a direct address",
+        "scheduler tails: at most one requester at a time is blocked on the restart signal (two blocked requesters "
+        "acquire the mutex in an order the standard library does not define)",
         "FB types contain no FB instances (nesting depth global/program variable -> FB instance); no REF_TO / "
         "class / interface variables, no FB inheritance",
         "program bodies are straight-line typed assignments, NOT, typed-literal increments and FB calls; values "
@@ -69,7 +79,12 @@ MANIFEST = {
                   "c09_warm_restart_load_partial: restart(Warm)+load keeps the warm clause when the file was saved from the "
                   "restarted state; c09_save_ok_store / c09_save_sequence / c09_save_failure_changes_nothing: after any "
                   "sequence of save calls with any pattern of failing writes, an Ok result means the medium holds the "
-                  "snapshot of that call (up to the manager's ==), and a failed write leaves manager and medium untouched. The violated clauses are refuted on concrete witnesses inside the model "
+                  "snapshot of that call (up to the manager's ==), and a failed write leaves manager and medium untouched; "
+                  "c09_sched_no_request_lost: in the transition system of the restart signal + resource thread (take and "
+                  "carry out in one critical section), for EVERY interleaving of requests, polls and completions nothing "
+                  "stays pending, and the restart carried out last is the one requested last (c09_sched_scripts: the "
+                  "scripted tails, kernel-evaluated); c09_expr_init_reads_creation_storage: create_program_instance "
+                  "evaluates a closed initialiser expression over the globals of the storage it is called on. The violated clauses are refuted on concrete witnesses inside the model "
                   "(c09_counterexample_bindings, _config_init, _fb_member, _power_cycle, _warm_rollback; kernel-evaluated), "
                   "the two repaired ones are kept as agreeing regression witnesses (c09_witness_last_single_agrees, "
                   "c09_witness_images_agrees), and all seven projects are replayed on the real runtime in every run "
@@ -86,9 +101,15 @@ MANIFEST = {
                   "reads (observation by path); that equal observations give equal continuations is tested by the twin "
                   "run, not proved (the cycle model is test scaffolding for straight-line programs).  Trusted: Lean kernel, "
                   "the hand-written model (validated only by the differential run, whose generator bounds what it sees: no "
-                  "overflow, no REF_TO, FB nesting depth 1), retain codec = identity (C10).  The threaded resource loop of "
-                  "scheduler.rs and run.rs start-up are not executed; their restart step (restart then load_retain_store) "
-                  "is replayed through the same public calls.",
+                  "overflow, no REF_TO, FB nesting depth 1), retain codec = identity (C10).  TESTED, NOT PROVED: (a) "
+                  "initialiser expressions across a whole restart / cold-vs-fresh (model + driver carry them; oracle "
+                  "clauses warm-rule, cold-vars, power-cycle evaluate the expression on the implementation's own "
+                  "post-restart globals; c09_cold_fresh_partial is guarded to constant initialisers); (b) that the real "
+                  "resource thread implements the proved signal protocol: scripted tails through ResourceRunner::spawn "
+                  "are compared with restart+load folded over the restarts the transition system carries out, and the "
+                  "oracle sched-request-lost counts retain loads against requests; the thread is paused, so free-running "
+                  "cycles and run.rs start-up are still not executed; (c) tag drift of untyped-literal arithmetic is "
+                  "modelled as the code behaves (C02/C03's subject), here only its interplay with save/load/restart.",
 }
 
 _SIG = re.compile(r"^#o known (\S+) (.*)$")
